@@ -111,6 +111,7 @@ def run_grid(shard, ctx):
     fl = [shard['f']] if 'f' in shard else fracs(ctx.tier)
     digits = [shard['digits']] if 'digits' in shard else DIGITS
     nt = 0
+    rot = 0
     for f in fl:
         text = f'{sign}{ip}.{f:04d}'
         x = float(text)
@@ -118,10 +119,13 @@ def run_grid(shard, ctx):
             x = int(text.split('.')[0])  # integers are supplied as ints half of the time
         for n in digits:
             ov = [(0, 'A1', x), (0, 'B1', n)]
-            for fn, cell in FCELL.items():
-                if 'fn' in shard and shard['fn'] != fn:
-                    continue
-                out = book.value(0, cell, ov)
+            fns = [(fn, cell) for fn, cell in FCELL.items() if not ('fn' in shard and shard['fn'] != fn)]
+            rot += 1
+            fns = fns[rot % len(fns):] + fns[:rot % len(fns)]
+            # the three modes of one amount are asked of ONE executor instance, in rotating order: an answer remembered per
+            # (amount, digits) without the mode would show here
+            outs_ = book.values(0, [cell for _, cell in fns], ov)
+            for (fn, cell), out in zip(fns, outs_):
                 changed = _check(r, fn, text, n, out, 'override', mon)
                 if changed or is_tie(text, n):
                     nt += 1
@@ -194,6 +198,7 @@ def run_scales(shard, ctx):
     mon = _monitor(r)
     mon.install(book.cls)
     nt = 0
+    rot = 0
     cases = []
     if 'text' in shard:
         cases = [(shard['text'], shard['digits'])]
@@ -219,13 +224,19 @@ def run_scales(shard, ctx):
     for text, n in cases:
         x = float(text)
         ov = [(0, 'A1', x), (0, 'B1', n)]
-        for fn, cell in FCELL.items():
-            if 'fn' in shard and shard['fn'] != fn:
-                continue
-            out = book.value(0, cell, ov)
+        fns = [(fn, cell) for fn, cell in FCELL.items() if not ('fn' in shard and shard['fn'] != fn)]
+        rot += 1
+        fns = fns[rot % len(fns):] + fns[:rot % len(fns)]
+        for (fn, cell), out in zip(fns, book.values(0, [cell for _, cell in fns] + ['F1'], ov)):
             changed = _check(r, fn, text, n, out, 'scales', mon)
             if changed or is_tie(text, n):
                 nt += 1
+        # percent of the same amount: x/100 at 15 significant digits, also for very small and very large magnitudes
+        outp = book.value(0, 'F1', [(0, 'A1', x)])
+        r.ev()
+        expp = expected_percent(text)
+        if not outcome_matches(outp, [expp], exact=True):
+            report(r, ID, None, {'fn': '%', 'text': text, 'how': 'scales', 'digits': 0}, outp.brief(), expp, monitor='percent-15g')
         r.seen('repr_forms', 'exponent' if 'e' in repr(x) else 'plain')
     r.nontrivial_disjoint += nt
     r.sample({'scales': [c for c in cases[:6]]})
